@@ -492,6 +492,36 @@ func genFacts(c *ctx, s *schema) {
 			})
 		}
 	}
+	// F3b: every other read of the callback (anything but a call, a nil comparison, or copying it into a
+	// struct literal field) could let its presence influence parsing
+	var cbOther []site
+	for _, x := range files {
+		if strings.HasPrefix(x.rel, "cmd/") {
+			continue
+		}
+		allowed := map[ast.Expr]bool{}
+		ast.Inspect(x.f, func(n ast.Node) bool {
+			switch t := n.(type) {
+			case *ast.CallExpr:
+				allowed[t.Fun] = true
+			case *ast.BinaryExpr:
+				if (t.Op == token.EQL || t.Op == token.NEQ) && isNil(t.Y) {
+					allowed[t.X] = true
+				}
+			case *ast.KeyValueExpr:
+				allowed[t.Value] = true
+			}
+			return true
+		})
+		ast.Inspect(x.f, func(n ast.Node) bool {
+			if s, ok := n.(*ast.SelectorExpr); ok && (s.Sel.Name == "errHandlerFunc" || s.Sel.Name == "ErrorHandlerFunc") && !allowed[s] {
+				cbOther = append(cbOther, c.siteOf(s.Pos(), "", "read "+callName(s)))
+			}
+			return true
+		})
+	}
+	c.side["callback_other_reads"] = cbOther
+	c.leanSites(&b, "callbackOtherReads", cbOther)
 	c.side["callback_unguarded"] = unguarded
 	c.side["callback_guarded"] = guarded
 	c.leanSites(&b, "callbackUnguarded", unguarded)
